@@ -475,6 +475,17 @@ def replay_for_verus(pid, r, f):
     from units import registry
     spec = registry.VERUS.get(r["unit"], {})
     scen = spec.get("scenarios", {}).get(f["item"]) or spec.get("scenario")
+    pb = spec.get("playback_scenarios", {}).get(f["item"])
+    if pb and not scen:
+        crate, test = pb
+        kani.ensure_playback_files()
+        rc, out, secs, to = kani._run(["cargo", "kani", "playback", "-Z", "concrete-playback", "--", test],
+                                      os.path.join(REPO, kani.CRATE_DIR[crate]), 2400)
+        if "test result: FAILED" in out and test in out:
+            f["replayed"] = True
+            return {"replayed_on_real_code": True, "replay_result": "native scenario %s (cargo kani playback, real I/O) FAILS on the current tree" % test, "scenario_log": out[-3000:]}
+        ok = ("test %s" % test) in out.replace("verif_kani::", "") or test in out
+        return {"replayed_on_real_code": False, "replay_result": "native scenario %s %s" % (test, "passes (no failing input found)" if "test result: ok" in out and ok else "could not be built/run"), "scenario_log": out[-2000:]}
     if not scen:
         return {"replayed_on_real_code": False, "replay_result": "no replay scenario exists for this obligation (no observable without power loss / fault injection)"}
     from lib import scenario
